@@ -1469,7 +1469,7 @@ class ComputeScalingFactorModule(DirectModule):
             if self.percentile:
                 for _ in range(data.size(0)):
                     # Used in case the k-space is padded (e.g. for batches)
-                    non_padded_coil_data = data[_][data[_].sum(dim=tuple(range(1, data[_].ndim))).bool()]
+                    non_padded_coil_data = data[_][(data[_] != 0).flatten(1).any(dim=1)]
                     tview = -1.0 * T.modulus(non_padded_coil_data).view(-1)
                     s, _ = torch.kthvalue(tview, int((1 - self.percentile) * tview.size()[0]) + 1)
                     scaling_factor += [-1.0 * s]
